@@ -24,14 +24,16 @@ type LinkedListQueue[T any] struct {
 	cond   sync.Cond
 }
 
+// Push appends v. A closed queue refuses it (ok is false): a producer that races with Close must neither
+// crash the program nor leave the queue locked for everybody else.
 func (p *LinkedListQueue[T]) Push(v T) bool {
 	p.cond.L.Lock()
+	defer p.cond.L.Unlock()
 	if p.closed {
-		panic("push on closed queue")
+		return false
 	}
 	p.queue.PushBack(v)
 	p.cond.Signal()
-	p.cond.L.Unlock()
 	return true
 }
 
@@ -39,7 +41,7 @@ func (p *LinkedListQueue[T]) Pull() (v T, ok bool) {
 	p.cond.L.Lock()
 	for {
 		if elem := p.queue.Front(); elem != nil {
-			v = p.queue.Remove(elem).(T)
+			v, _ = p.queue.Remove(elem).(T) // a nil interface value is a value too
 			ok = true
 			break
 		} else if p.closed {
